@@ -51,6 +51,10 @@ def ob_convert(tmpl, with_stop, budget_s=300):
         if symx.choose("delays", 2):
             sm["DELAYS"] = "2.000=0.250"
         sm["ZZFRESH"] = "z!"
+        if symx.choose("keyonly", 2):
+            sm["FGCHANGES"] = None      # key-only parameters ("#FGCHANGES;") load as None
+            sm["ZZKEYONLY"] = None
+            sm["ARTIST"] = None
         nch = symx.choose("ncharts", 3)
         for n in range(nch):
             ch = SM.SMChart.from_msd(["dance-single", "d%d!" % n, "Hard", "9", "0,0", "1000\n0200\n0030\n0004\n,\n000%d\n0000" % n])
@@ -84,7 +88,7 @@ def ob_convert(tmpl, with_stop, budget_s=300):
             return False, ("type",)
         base = dict(st) if st is not None else dict(SSC.SSCSimfile.blank())
         want = dict(base); want.update(dict(sm))
-        if dict(out) != want:
+        if dict(out) != want or any(k not in out for k in sm):
             return False, ("properties", sorted(set(dict(out)) ^ set(want)), [k for k in want if k in out and out[k] != want[k]])
         off = len(st.charts) if st is not None else 0
         if len(out.charts) != off + nch:
@@ -140,7 +144,7 @@ def ob_loads_back(tmpl, budget_s=120):
 
     def run():
         ok, msg = _concrete_loadback({"base": symx.choose("base", 2), "anim": symx.choose("anim", 2), "ssconly": symx.choose("ssconly", 2),
-                                      "ncharts": symx.choose("ncharts", 3)}, tmpl)
+                                      "ncharts": symx.choose("ncharts", 3), "keyonly": symx.choose("keyonly", 2)}, tmpl)
         return ok, (msg,)
     return symx.explore(run, budget_s=budget_s)
 
@@ -159,6 +163,8 @@ def _real_source(g, tmpl, with_stop=True, freezes=False):
     if g("delays"):
         sm["DELAYS"] = "2.000=0.250"
     sm["ZZFRESH"] = "z!"
+    if g("keyonly"):
+        sm["FGCHANGES"] = None; sm["ZZKEYONLY"] = None; sm["ARTIST"] = None
     for n in range(g("ncharts")):
         ch = SMChart.from_msd(["dance-single", "d%d!" % n, "Hard", "9", "0,0", "1000\n0200\n0030\n0004\n,\n000%d\n0000" % n])
         if n == 1:
@@ -195,7 +201,7 @@ def obligations(tier):
     for tmpl in range(3):
         for ws in (True, False):
             obs.append(dict(name=f"convert[templates={tmpl},stop={ws}]", func="ob_convert", args=(tmpl, ws), budget_s=b,
-                            bounds="2 BPMs + optional stop with symbolic ticks and symbolic 3-place decimal values (sign free); blank/empty base, ANIMATIONS alias, SSC-only keys, DELAYS optional; 0..2 charts; templates none / with own charts+properties / empty"))
+                            bounds="2 BPMs + optional stop with symbolic ticks and symbolic 3-place decimal values (sign free); blank/empty base, ANIMATIONS alias, SSC-only keys, key-only (None) properties, DELAYS optional; 0..2 charts; templates none / with own charts+properties / empty"))
         obs.append(dict(name=f"loads_back[templates={tmpl}]", func="ob_loads_back", args=(tmpl,), budget_s=b, bounds="concrete timing values; base/alias/SSC-only/chart-count case splits; real tokenizer"))
     obs.append(dict(name="known[FREEZES]", func="ob_freezes", args=(), budget_s=60, bounds="dedicated probe of the known finding"))
     return obs
@@ -222,7 +228,7 @@ def replay(data):
         return list(TimingData(out).stops) != list(TimingData(sm).stops), f"stops of the source {TimingData(sm).stops} vs of the SSC result {TimingData(out).stops} (keys {list(out.keys())[-3:]})"
     tmpl = data["args"][0]
     if data["func"] == "ob_loads_back":
-        ok, msg = _concrete_loadback({k: g(k) for k in ("base", "anim", "ssconly", "ncharts")}, tmpl)
+        ok, msg = _concrete_loadback({k: g(k) for k in ("base", "anim", "ssconly", "ncharts", "keyonly")}, tmpl)
         return not ok, msg
     ws = data["args"][1]
     sm, st, ct = _real_source(g, tmpl, with_stop=ws)
